@@ -115,6 +115,32 @@ class ConstRule(Rule):
         return self.answer
 
 
+class ConstRuleValue(ConstRule):
+    """the Rule contract is positional (`rule.satisfied(value, inquiry)`): the parameter names are the author's choice"""
+    def satisfied(self, value, inq=None):
+        return self.answer
+
+
+class ConstRulePosOnly(ConstRule):
+    def satisfied(self, candidate, current_inquiry=None, /):
+        return self.answer
+
+
+class ConstRuleArgs(ConstRule):
+    def satisfied(self, *args):
+        return self.answer
+
+
+CONST_CLASSES = [ConstRule, ConstRule, ConstRuleValue, ConstRulePosOnly, ConstRuleArgs]
+_const_n = [0]
+
+
+def const_rule(answer):
+    """a user-defined constant rule; the class (the spelling of its signature) rotates"""
+    _const_n[0] += 1
+    return CONST_CLASSES[_const_n[0] % len(CONST_CLASSES)](answer)
+
+
 def enc_bool(b):
     return 'T' if b else 'F'
 
@@ -182,7 +208,7 @@ def build_rule(r, alias=None):
     if tag == 'raise':
         return RaisingRule(r[1] if len(r) > 1 else 'ValueError')
     if tag == 'const':
-        return ConstRule(r[1])
+        return const_rule(r[1])
     if tag == 'and':
         return r_logic.And(*[build_rule(x) for x in r[1]])
     if tag == 'or':
